@@ -276,15 +276,10 @@ func (d *DFA) SearchAtAnchored(cache *DFACache, haystack []byte, at int) int {
 			nextState, err := d.determinize(cache, currentState, b)
 			if err != nil {
 				if isCacheCleared(err) {
-					currentState = d.getStartState(cache, haystack, pos, true)
-					if currentState == nil {
-						return d.nfaFallback(haystack, at)
-					}
-					sid = currentState.id
-					ft = cache.flatTrans
-					ftLen = len(ft)
-					pos--
-					continue
+					// The states walked so far are gone with the cache and the position alone
+					// does not say how far into a match we are: search again from the
+					// beginning (at most MaxCacheClears times, then the NFA takes over).
+					return d.SearchAtAnchored(cache, haystack, at)
 				}
 				return d.nfaFallback(haystack, at)
 			}
@@ -877,16 +872,10 @@ func (d *DFA) searchEarliestMatchAnchored(cache *DFACache, haystack []byte, star
 			nextState, err := d.determinize(cache, currentState, b)
 			if err != nil {
 				if isCacheCleared(err) {
-					currentState = d.getStartState(cache, haystack, pos, true)
-					if currentState == nil {
-						start, end, matched := d.pikevm.SearchAt(haystack, startPos)
-						return matched && start == startPos && end >= start
-					}
-					sid = currentState.id
-					ft = cache.flatTrans
-					ftLen = len(ft)
-					pos--
-					continue
+					// The states walked so far are gone with the cache and the position alone
+					// does not say how far into a match we are: search again from the
+					// beginning (at most MaxCacheClears times, then the NFA takes over).
+					return d.searchEarliestMatchAnchored(cache, haystack, startPos)
 				}
 				start, end, matched := d.pikevm.SearchAt(haystack, startPos)
 				return matched && start == startPos && end >= start
@@ -989,14 +978,10 @@ func (d *DFA) findWithPrefilterAt(cache *DFACache, haystack []byte, startAt int)
 			nextState, err := d.determinize(cache, currentState, haystack[pos])
 			if err != nil {
 				if isCacheCleared(err) {
-					newStart := d.getStartStateForUnanchored(cache, haystack, pos)
-					if newStart == nil {
-						return d.nfaFallback(haystack, startAt)
-					}
-					sid = newStart.id
-					ft = cache.flatTrans
-					ftLen = len(ft)
-					continue
+					// The states walked so far are gone with the cache and the position alone
+					// does not say how far into a match we are: search again from the
+					// beginning (at most MaxCacheClears times, then the NFA takes over).
+					return d.findWithPrefilterAt(cache, haystack, startAt)
 				}
 				return d.nfaFallback(haystack, startAt)
 			}
@@ -1873,14 +1858,10 @@ func (d *DFA) SearchReverse(cache *DFACache, haystack []byte, start, end int) in
 			nextState, err := d.determinize(cache, currentState, b)
 			if err != nil {
 				if isCacheCleared(err) {
-					currentState = d.getStartStateForReverse(cache, haystack, at+1)
-					if currentState == nil {
-						return d.nfaFallbackReverse(haystack, start, end)
-					}
-					sid = currentState.id
-					ft = cache.flatTrans
-					ftLen = len(ft)
-					continue
+					// The states walked so far are gone with the cache and the position alone
+					// does not say how far into a match we are: search again from the
+					// beginning (at most MaxCacheClears times, then the NFA takes over).
+					return d.SearchReverse(cache, haystack, start, end)
 				}
 				return d.nfaFallbackReverse(haystack, start, end)
 			}
@@ -1989,15 +1970,10 @@ func (d *DFA) SearchReverseLimited(cache *DFACache, haystack []byte, start, end,
 			nextState, err := d.determinize(cache, currentState, b)
 			if err != nil {
 				if isCacheCleared(err) {
-					currentState = d.getStartStateForReverse(cache, haystack, at+1)
-					if currentState == nil {
-						return d.nfaFallbackReverse(haystack, start, end)
-					}
-					sid = currentState.id
-					ft = cache.flatTrans
-					ftLen = len(ft)
-					at++ // Will be decremented by for-loop
-					continue
+					// The states walked so far are gone with the cache and the position alone
+					// does not say how far into a match we are: search again from the
+					// beginning (at most MaxCacheClears times, then the NFA takes over).
+					return d.SearchReverseLimited(cache, haystack, start, end, minStart)
 				}
 				return d.nfaFallbackReverse(haystack, start, end)
 			}
@@ -2079,16 +2055,10 @@ func (d *DFA) IsMatchReverse(cache *DFACache, haystack []byte, start, end int) b
 			nextState, err := d.determinize(cache, currentState, b)
 			if err != nil {
 				if isCacheCleared(err) {
-					currentState = d.getStartStateForReverse(cache, haystack, at+1)
-					if currentState == nil {
-						_, _, matched := d.pikevm.Search(haystack[start:end])
-						return matched
-					}
-					sid = currentState.id
-					ft = cache.flatTrans
-					ftLen = len(ft)
-					at++ // Will be decremented by for-loop
-					continue
+					// The states walked so far are gone with the cache and the position alone
+					// does not say how far into a match we are: search again from the
+					// beginning (at most MaxCacheClears times, then the NFA takes over).
+					return d.IsMatchReverse(cache, haystack, start, end)
 				}
 				_, _, matched := d.pikevm.Search(haystack[start:end])
 				return matched
